@@ -55,6 +55,14 @@ def catalog():
         "setup": [stack(1.0, 1)],
         "threads": [[sub("f0"), sub("f1"), sub("f2")], [["sleep", 0.75], ["run", "ex", 0]]],
         "settle": 4.0, "final": [["state", "f0"], ["state", "f1"], ["state", "f2"]]}}
+    # a cancel attempt that takes (virtual) time and is refused: the next deadline must still be met
+    out["O5/slow-refused-cancel"] = {"default": 0.3, "prog": {
+        "setup": [["build", "ex", {"base": {"kind": "manual"}, "layers": [
+            {"kind": "poll", "interval": 50.0, "per_sub": {"f0.fn": {"after": None}}, "cancel": [["vsleep", 3.0, ["ret", False]]]},
+            {"kind": "timeout", "t": 0.3, "tap": True}]}]],
+        # (no deadline falls inside the 0.3 .. 3.3 s during which the single timeout thread sits in the user's slow cancel function)
+        "threads": [[sub("f0"), sub("f1", 4.0), ["sleep", 0.1], ["run", "ex", 0]]],
+        "settle": 9.0, "final": [["state", "f0"], ["state", "f1"]]}}
     out["F1/f_timeout-concurrent-first"] = {"ft": True, "prog": {
         "setup": [],
         "threads": [[["expr", "f0", ["f_timeout", ["src", "a0"], 2.0]]], [["expr", "f1", ["f_timeout", ["src", "a1"], 1.0]]],
@@ -111,9 +119,20 @@ def evaluate(case):
     for ev in s.events:
         if ev[3] == "job_end":
             completes["%s.j%d" % (ev[4]["ex"], ev[4]["job"])] = ev[1]
-    ran = set(completes)
+    # with layers below the timeout layer (poll!) the base job ending is not the future ending: the recording tap
+    # directly below the timeout layer tells when the timeout layer's delegate future became done
+    tapdone = {}
+    for ev in s.events:
+        if ev[3] == "tap_done" and ev[4]["fn"]:
+            tapdone.setdefault(ev[4]["fn"], (ev[1], ev[4]["cancelled"]))
+    for sb in subs:
+        if sb["fn"] is not None and sb["target"] is not None:
+            completes.pop(sb["target"], None)
+            if sb["fn"] in tapdone:
+                completes[sb["target"]] = tapdone[sb["fn"]][0]
+    ran = set(sb["target"] for sb in subs if sb["fn"] in tapdone and not tapdone[sb["fn"]][1])
     for o in ops:
-        if o["op"][0] == "complete" and o["result"][0] == "ok" and o["result"][1] not in ("noop", "missing"):
+        if o["op"][0] == "complete" and o["result"][0] == "ok" and o["result"][1] not in ("noop", "missing") and ".base.j" not in o["op"][1]:
             completes.setdefault(o["op"][1], o["ret_t"])
     user_cancel = {}
     for o in ops:
